@@ -12,7 +12,12 @@ let parse_cfg (s : string) =
   let lv c = match c with 'U' -> Unreachable | 'K' -> Unknown | _ -> Reachable in
   let lb = g "lb" in
   let reps = List.init 3 (fun i ->
-      fresh_rep (lv (g "lv").[i]) ((g "sl").[i] = '1') (lb <> "-" && int_of_string lb = i) (b "lr" && i = 2)) in
+      (* a later call of a sequence starts from the OBSERVED liveness / slow marks *)
+      let later = (try (List.assoc "olv" kv).[0] <> '-' with Not_found -> false) in
+      let lvs = if later then List.assoc "olv" kv else g "lv" and sls = if later then List.assoc "osl" kv else g "sl" in
+      let r0 = fresh_rep (lv lvs.[i]) (sls.[i] = '1') (lb <> "-" && int_of_string lb = i) (b "lr" && i = 2) in
+      let bit k = (try (List.assoc k kv).[i] = '1' with Not_found -> false) in
+      { r0 with stale = bit "es"; busy_est = bit "be" }) in
   let bo k = (try List.assoc k kv = "1" with Not_found -> false) in
   let ga k d = (try List.assoc k kv with Not_found -> d) in
   let trig t = if t = "P" then TPre else if String.length t >= 2 && t.[0] = 'A' then TAtt (nat_of_int (int_of_string (String.sub t 1 (String.length t - 1))))
@@ -22,7 +27,9 @@ let parse_cfg (s : string) =
   (* for StoreTp <> TiKV only the validation gate is modelled: compare only the runs it refuses *)
   (bo "inv" || (tp <> "K" && not (tp = "F" && not (b "val"))), { c_rt = rt; c_stale = b "st"; c_read = b "rd"; c_has_labels = (lb <> "-"); c_leader_only = b "lo"; c_thr = b "thr";
             c_short_to = b "to"; c_max_sleep = n_of_int (int_of_string (g "ms")); c_val = b "val"; c_reps = reps; c_fw = b "fw"; c_store_tp = stp;
-            c_cancel = trig (ga "cx" "-"); c_kill = trig (ga "kl" "-"); c_interruptible = (ga "ir" "1" = "1"); c_async = (ga "as" "0" = "1") })
+            c_cancel = trig (ga "cx" "-"); c_kill = trig (ga "kl" "-"); c_interruptible = (ga "ir" "1" = "1"); c_async = (ga "as" "0" = "1");
+            c_leader0 = nat_of_int (int_of_string (ga "ld" "0"));
+            c_proxy0 = (let p = int_of_string (ga "px" "-1") in if p < 0 then None else Some (nat_of_int p)) })
 
 let parse_sym (s : string) : outcome =
   let lv c = match c with 'u' -> Unreachable | 'k' -> Unknown | _ -> Reachable in
@@ -85,6 +92,7 @@ let () =
           Hashtbl.replace distinct (cfg ^ "|" ^ me ^ "|" ^ mr) ();
           bump ("result:" ^ String.sub mr 0 1);
           bump ("rt:" ^ String.sub cfg 3 1);
+          (try (let i = Str.search_forward (Str.regexp "pre=[^-,]") cfg 0 in ignore i; bump "class:multi-call") with Not_found -> ());
           if me <> events || mr <> result then begin
             incr mism;
             if !mism <= 40 then print_endline ("MISMATCH\t" ^ cfg ^ "\t" ^ script ^ "\t" ^ rands ^ "\timpl=" ^ events ^ " " ^ result ^ "\tmodel=" ^ me ^ " " ^ mr)
